@@ -555,8 +555,23 @@ fn pivot(raw: &[P2], rfac: f64, cw: bool, fill: &Option<f64>) -> Verdict {
             if d < radius * (1.0 - 1e-6) {
                 // a point that lay within 1e-5 r of the previous ball's boundary was a (near) simultaneous contact:
                 // three nearly co-circular points, which the pivot's angular threshold cannot order
-                let near_tie = s >= 1 && ((p - centers[s - 1]).norm() - radius).abs() <= 1e-5 * radius;
-                let which = if s >= 1 && j == indices[s - 1] { "previous_point" } else if near_tie { "near_cocircular_tie" } else { "other_point" };
+                // ... and so is a point within 1e-4 r of one of the two points the ball rests on (two of the three
+                // co-circular points nearly coincide): the pivot skips contacts within 1e-6 rad of its current position
+                let near_contact = [indices[s], indices[s + 1]].iter().any(|k| *k != j && (p - pts[*k]).norm() <= 1e-4 * radius)
+                    // or the two resting points themselves nearly coincide: the side the ball lies on is then decided by
+                    // which of the cluster's contacts fell inside the angular threshold
+                    || (a - b).norm() <= 1e-4 * radius
+                    // or one of the points the ball rests on in this or the previous step has a near-duplicate in the
+                    // input: the near-duplicates are contacts within the angular threshold of that resting position
+                    || {
+                        let mut ks = vec![indices[s], indices[s + 1]];
+                        if s >= 1 {
+                            ks.push(indices[s - 1]);
+                        }
+                        ks.iter().any(|k| pts.iter().enumerate().any(|(i, q)| i != *k && (q - pts[*k]).norm() <= 1e-4 * radius))
+                    };
+                let near_tie = near_contact || (s >= 1 && ((p - centers[s - 1]).norm() - radius).abs() <= 1e-5 * radius && j != indices[s - 1]);
+                let which = if near_tie { "near_cocircular_tie" } else if s >= 1 && j == indices[s - 1] { "previous_point" } else { "other_point" };
                 return Verdict::fail(format!("C15/ball_pivot/point_inside_ball/{which}"), format!("step {s} ({} -> {}): input point {j} is {:e} inside the reported ball of radius {radius:e} (it is {})", indices[s], indices[s + 1], radius - d, if which == "previous_point" { "the point visited just before" } else if which == "near_cocircular_tie" { "a point that was within 1e-5 r of the previous ball: a near co-circular triple" } else { "another point" }));
             }
         }
